@@ -76,6 +76,14 @@ def worker(unit, emit):
                 rec(base.lower(), 'lower')
                 rec(' ' + base + ' ', 'padded')
                 rec('\t' + base + '\n', 'padded2')
+                if f == 'figi' and len(c) == 12:
+                    from stdnum import figi as _figi
+                    for pre in ('BS', 'BM', 'GG', 'GB', 'GH', 'KY', 'VG', 'BB', 'KK'):
+                        body = pre + c[2:11]
+                        try:
+                            rec(body + _figi.calc_check_digit(body), 'reserved prefix ' + pre)
+                        except Exception:
+                            pass
                 if f == 'imo':
                     rec('IMO ' + base, 'prefix')
                     rec('imo' + base, 'prefix')
